@@ -26,8 +26,10 @@ def rand_name(rng, dots=True):
     return s
 
 
-def rand_value(rng, varnames, path=False, rich=True):
+def rand_value(rng, varnames, path=False, rich=True, may_be_empty=False):
     parts = []
+    if may_be_empty and rng.random() < 0.12:
+        return []                       # `name =` : bound to the empty string (still shadows an outer binding)
     for _ in range(rng.randint(1, 3)):
         r = rng.random()
         if r < 0.55 or not varnames:
@@ -35,6 +37,8 @@ def rand_value(rng, varnames, path=False, rich=True):
             t = "".join(rng.choice(alphabet) for _ in range(rng.randint(1, 5)))
             if rich and rng.random() < 0.15:
                 t += rng.choice(["é", "日本", "$", " ", ":"]) if not path else rng.choice(["é", "$", " ", ":"])
+            if rich and parts and parts[-1][0] == "var" and rng.random() < 0.25:
+                t = rng.choice(["é", "日本", "ü"]) + t          # non-ASCII text directly after a `$name` reference
             parts.append(("lit", t))
         else:
             parts.append(("var", rng.choice(varnames)))
@@ -58,7 +62,7 @@ def gen_abstract(rng, nstmt=None, dup_outputs=False, includes=False, scoping=Fal
     for _ in range(nstmt):
         r = rng.random()
         if r < 0.25:
-            stmts.append(("bind", rng.choice(varnames), rand_value(rng, varnames, rich=True)))
+            stmts.append(("bind", rng.choice(varnames), rand_value(rng, varnames, rich=True, may_be_empty=True)))
         elif r < 0.40 or not rules:
             name = "r%d" % len(rules)
             binds = [("command", rand_value(rng, varnames + ["in", "out", "in_newline", "out_newline"] * 1))]
@@ -74,7 +78,7 @@ def gen_abstract(rng, nstmt=None, dup_outputs=False, includes=False, scoping=Fal
                     else:
                         binds.append(("pool", rand_value(rng, varnames, rich=False)))   # e.g. pool = $jobpool, rebound per build
                 else:
-                    binds.append((k, rand_value(rng, varnames + ["out"])))
+                    binds.append((k, rand_value(rng, varnames + ["out"], may_be_empty=(k == "description"))))
             rules.append(name)
             stmts.append(("rule", name, binds))
         elif r < 0.48:
@@ -92,7 +96,7 @@ def gen_abstract(rng, nstmt=None, dup_outputs=False, includes=False, scoping=Fal
             if rng.random() < 0.4:
                 for _ in range(rng.randint(1, 2)):
                     k = rng.choice(varnames + ["command", "description", "pool", "depfile"] + (["in", "out", "in_newline"] if scoping else []))
-                    binds.append((k, rand_value(rng, varnames + (["in", "out"] if scoping else []))))
+                    binds.append((k, rand_value(rng, varnames + (["in", "out"] if scoping else []), may_be_empty=True)))
             stmts.append(("build", eo, io_, rng.choice(rules + ["phony"] if rng.random() < 0.2 else rules),
                           paths(2), paths(1) if rng.random() < 0.4 else [], paths(1) if rng.random() < 0.3 else [],
                           paths(1) if rng.random() < 0.2 else [], binds))
